@@ -1,6 +1,8 @@
 import Blf.Gen.All
 import Blf.Codec.Determinacy
 import Blf.Spec.ObjectTypes
+import Blf.UFile
+import Blf.Queue
 /-!
 # Line-protocol driver for the correspondence harness (tie D)
 
@@ -114,11 +116,109 @@ def handle (cfg : Cfg) (line : String) : String :=
     | none => "bad-class"
   | _ => "bad-request"
 
-partial def loop (cfg : Cfg) (hin : IO.FS.Stream) (hout : IO.FS.Stream) : IO Unit := do
+structure Sess where
+  uf : UFile.State := {}
+  q : Queue.State := {}
+
+def b2s (b : Bool) : String := if b then "1" else "0"
+
+def ufObs (s : UFile.State) : String :=
+  "tg=" ++ toString (UFile.tellgObs s) ++ " tp=" ++ toString (UFile.tellpObs s) ++ " gc=" ++ toString s.gcount ++
+  " fs=" ++ toString s.fileSize ++ " good=" ++ b2s s.good ++ " eof=" ++ b2s s.eof ++ " dlcs=" ++ toString s.dlcs ++
+  (if s.oob then " oob" else "") ++ (if s.hang then " hang" else "")
+
+def handleU (ss : Sess) (args : List String) : Sess × String :=
+  let s := ss.uf
+  match args with
+  | ["new"] => ({ ss with uf := {} }, "u ok " ++ ufObs {})
+  | ["w", h] =>
+    match parseHex h with
+    | some b => if UFile.guardWrite s then let s' := UFile.write s b; ({ ss with uf := s' }, "u ok " ++ ufObs s') else (ss, "u block")
+    | none => (ss, "bad-request")
+  | "wc" :: sz :: hs =>
+    match sz.toNat?, parseHex (String.join hs) with
+    | some n, some b =>
+      if UFile.guardWriteCont s then let s' := UFile.writeCont s n b; ({ ss with uf := s' }, "u ok " ++ ufObs s') else (ss, "u block")
+    | _, _ => (ss, "bad-request")
+  | ["r", n] =>
+    match n.toNat? with
+    | some k =>
+      if UFile.guardRead s k then
+        let r := UFile.read s k
+        ({ ss with uf := r.1 }, "u ok bytes=" ++ toHex r.2 ++ " " ++ ufObs r.1)
+      else (ss, "u block")
+    | none => (ss, "bad-request")
+  | ["sk", off] =>
+    match off.toInt? with
+    | some k => let s' := UFile.seekg s k; ({ ss with uf := s' }, "u ok " ++ ufObs s')
+    | none => (ss, "bad-request")
+  | ["nlc"] => let s' := UFile.nextLogContainer s; ({ ss with uf := s' }, "u ok " ++ ufObs s')
+  | ["drop"] => let s' := UFile.dropOldData s; ({ ss with uf := s' }, "u ok " ++ ufObs s')
+  | ["sfs", n] =>
+    match n.toInt? with
+    | some k => let s' := UFile.setFileSize s k; ({ ss with uf := s' }, "u ok " ++ ufObs s')
+    | none => (ss, "bad-request")
+  | ["sbs", n] =>
+    match n.toInt? with
+    | some k => let s' := UFile.setBufferSize s k; ({ ss with uf := s' }, "u ok " ++ ufObs s')
+    | none => (ss, "bad-request")
+  | ["sdlcs", n] =>
+    match n.toNat? with
+    | some k => let s' := UFile.setDlcs s k; ({ ss with uf := s' }, "u ok " ++ ufObs s')
+    | none => (ss, "bad-request")
+  | ["abort"] => let s' := UFile.doAbort s; ({ ss with uf := s' }, "u ok " ++ ufObs s')
+  | _ => (ss, "bad-request")
+
+def qObs (s : Queue.State) : String :=
+  "tg=" ++ toString s.tellg ++ " tp=" ++ toString s.tellp ++ " good=" ++ b2s s.good ++ " eof=" ++ b2s s.eof
+
+def handleQ (ss : Sess) (args : List String) : Sess × String :=
+  let s := ss.q
+  let run (op : Queue.Op) : Sess × String :=
+    if Queue.guard s op then
+      let r := Queue.step s op
+      let ret := match r.2 with
+        | some (some x) => " ret=" ++ toString x
+        | some none => " ret=null"
+        | none => ""
+      ({ ss with q := r.1 }, "q ok" ++ ret ++ " " ++ qObs r.1)
+    else (ss, "q block")
+  match args with
+  | ["new"] => ({ ss with q := {} }, "q ok " ++ qObs {})
+  | ["r"] => run .read
+  | ["w", x] => match x.toNat? with | some k => run (.write k) | none => (ss, "bad-request")
+  | ["abort"] => run .abort
+  | ["sfs", n] => match n.toNat? with | some k => run (.setFileSize k) | none => (ss, "bad-request")
+  | ["sbs", n] => match n.toNat? with | some k => run (.setBufferSize k) | none => (ss, "bad-request")
+  | _ => (ss, "bad-request")
+
+partial def loop (cfg : Cfg) (ss : Sess) (hin : IO.FS.Stream) (hout : IO.FS.Stream) : IO Unit := do
   let line ← hin.getLine
   if line.isEmpty then return ()
-  hout.putStrLn (handle cfg line)
-  loop cfg hin hout
+  match line.trimAscii.toString.splitOn " " with
+  | "u" :: args =>
+    let (ss', out) := handleU ss args
+    hout.putStrLn out
+    loop cfg ss' hin hout
+  | "q" :: args =>
+    let (ss', out) := handleQ ss args
+    hout.putStrLn out
+    loop cfg ss' hin hout
+  | ["useq", ops] =>
+    let outs := (ops.splitOn ";").foldl (fun (acc : Sess × List String) op =>
+      let r := handleU acc.1 (op.splitOn ":")
+      (r.1, r.2 :: acc.2)) ({ uf := {} }, [])
+    hout.putStrLn ("useq " ++ " | ".intercalate outs.2.reverse)
+    loop cfg ss hin hout
+  | ["qseq", ops] =>
+    let outs := (ops.splitOn ";").foldl (fun (acc : Sess × List String) op =>
+      let r := handleQ acc.1 (op.splitOn ":")
+      (r.1, r.2 :: acc.2)) ({ q := {} }, [])
+    hout.putStrLn ("qseq " ++ " | ".intercalate outs.2.reverse)
+    loop cfg ss hin hout
+  | _ =>
+    hout.putStrLn (handle cfg line)
+    loop cfg ss hin hout
 
 def main : IO Unit := do
   let hin ← IO.getStdin
@@ -126,4 +226,4 @@ def main : IO Unit := do
   let cap := match (← IO.getEnv "VERIF_CAP") with
     | some s => s.toNat?.getD 268435456
     | none => 268435456
-  loop { cap := cap } hin hout
+  loop { cap := cap } {} hin hout
